@@ -597,7 +597,8 @@ func c08Failures(run *evid.Run, evals, nontrivial *int) {
 				report(kind, "", "")
 			}
 		}
-		for _, conn := range []string{"keep-alive, Upgrade", "upgrade", "Upgrade, keep-alive"} {
+		// (the last one: the options on two Connection field lines)
+		for _, conn := range []string{"keep-alive, Upgrade", "upgrade", "Upgrade, keep-alive", "keep-alive\r\nConnection: Upgrade"} {
 			err := wsStaysOpenConn(n.ProxyAddr(), "e1.piko.test", "websocket", conn, 3*timeout)
 			kind := "websocket upgrade (Connection: " + conn + ") outlives the proxy timeout via " + n.ID
 			if err != nil {
